@@ -14,6 +14,9 @@ import re
 from ..oracle.sem import V, L, N, BUILTIN_SIGS, is_singular
 from ..oracle import strings as S
 
+# patterns that are not (clean) I-Regexps: a query using them as string literals is still a valid query
+HOSTILE_PATTERNS = ["a{2,1}", "[z-a]", "(", ")", "[", "\\d+", "(?i)a", "a**", "\\", "[a-]]", "a{99999}", "\\p{Xx}", "^a$", "[^]", "(a|b", "a{,2}", "*", "+?", "\\u0061"]
+
 HOSTILE_NAMES = [
     "a", "b", "c", "d e", "", "0", "1", "-1", "length", "é", "a'b", 'q"r', "x\\y", "\n", "\x00",
     "\x1f", "\x7f", "\U0001F600", "A", "ä", "*", "$", "@", "a.b", "true", "null", "_", "a1", "ab",
@@ -48,7 +51,8 @@ class Cfg:
         self.max_depth = 3                   # filter nesting depth
         self.functions = True
         self.regex_functions = False         # match/search need the I-Regexp oracle; opt-in
-        self.indices = [0, 1, 2, -1, -2, 3, 5, -5]
+        self.indices = [0, 1, 2, -1, -2, 3, 5, -5, 10, 100, 105, 1000, -100, 20, 101]
+        self.regex_pool = ["a", "a.*", ".", "[ab]+", "a|b", ".*b", "\\p{L}*", "[^a]", "(ab)?", "a{2}", "", "1"]
         self.big_ints = False
         self.lit_pool = LIT_POOL
         self.desc_p = 0.25
@@ -156,7 +160,7 @@ class QGen:
     def regex_arg(self, depth):
         R = self.R
         if R.random() < 0.7:
-            return ("lit", R.choice(["a", "a.*", ".", "[ab]+", "a|b", ".*b", "\\p{L}*", "[^a]", "(ab)?", "a{2}", "", "1"]))
+            return ("lit", R.choice(self.cfg.regex_pool))
         return self.singular()
 
     def value_arg(self, depth):
